@@ -326,6 +326,8 @@ pub enum P {
     Fail(String),
     /// `literal(s).anywhere()`: consumes the first item equal to `s` wherever it stands
     LiteralAnywhere(String),
+    /// `any(metavar, |s| s.contains('=').then(..))`: takes the first unconsumed item that looks like KEY=VAL
+    AnyKv { metavar: String, help: Option<DocSpec> },
 }
 
 #[derive(Clone, Debug, PartialEq, Eq, Hash, Serialize, Deserialize, Default)]
@@ -732,6 +734,13 @@ pub fn build_p(p: &P) -> BP {
         }
         P::Fail(m) => fail::<Val>(intern(m)).boxed(),
         P::LiteralAnywhere(s) => literal(intern(s)).anywhere().map(|_| Val::U).boxed(),
+        P::AnyKv { metavar, help } => {
+            let a = any::<String, _, _>(intern(metavar), |s: String| if s.contains('=') && !s.starts_with('-') { Some(Val::s(&s)) } else { None });
+            match help {
+                Some(h) => a.help(h.build()).boxed(),
+                None => a.boxed(),
+            }
+        }
     }
 }
 
